@@ -1,3 +1,682 @@
+// C27 harness: random key histories (inserts, deletes, re-inserts of identical values in the same and in later
+// blocks, several transactions per block, aborted transactions) on the REAL Merkle Patricia trie, every block
+// finalized by the REAL chain.finalizeBlock (SaveChanges + RecordDeadNodes at the block's round + summary ring)
+// into a REAL util.PNodeDB on a temporary rocksdb directory (the shimmed grocksdb), pruned by the REAL
+// pruneClientState (version choice + PNodeDB.PruneBelowVersion), then every block's state read back in full from
+// the persistent DB — against Model/Prune.lean. The real util.ChangeCollector is driven next to its model as well.
+//
+//	hist <salt> <round0>       reset chain bookkeeping, genesis (empty state) finalized at round0
+//	b <round>                  open the block of <round> on top of the last finalized one
+//	t | i <key> <val> | d <key> | c | a      a transaction's trie: insert / delete / commit (MergeMPTChanges) / abort
+//	fin N:<..> D:<..> T:<..>   finalize; the sets (new nodes, dead nodes, all nodes of the state; 12 hex chars of each
+//	                           hash, sorted) are what the GENERATOR computed on its own copy of the trie; the answer
+//	                           carries the sets computed HERE
+//	prune <count>              pruneClientState with PruneStateBelowCount=count -> noprune | abandoned | pruned <v> <deleted>
+//	check <round>              iterate the whole state of that block from the persistent DB -> ok | missing | unknown-round
+//	ccnew | ccadd <old|-> <new> | ccdel <old> | ccdump      the change collector
 package main
 
-func main() {}
+import (
+	"context"
+	"fmt"
+	"math/rand"
+	"os"
+	"sort"
+	"strconv"
+	"strings"
+	"sync"
+
+	"0chain.net/chaincore/block"
+	"0chain.net/chaincore/chain"
+	"0chain.net/chaincore/node"
+	"0chain.net/chaincore/round"
+	"0chain.net/core/datastore"
+	"0chain.net/core/encryption"
+	"0chain.net/core/memorystore"
+	"github.com/0chain/common/core/statecache"
+	"github.com/0chain/common/core/util"
+	"verifharness/lib/corr"
+	"verifharness/lib/engine"
+)
+
+// ---------------------------------------------------------------------------------------------- the trie, as the engine uses it
+
+type val struct{ b []byte }
+
+func (v *val) MarshalMsg(o []byte) ([]byte, error) { return append(o, v.b...), nil }
+func (v *val) UnmarshalMsg(b []byte) ([]byte, error) {
+	v.b = append([]byte(nil), b...)
+	return nil, nil
+}
+
+// keyPath: keys "p<x>" share a 60-character prefix (extension node + nested full nodes), others are spread.
+func keyPath(salt, k string) util.Path {
+	h := encryption.Hash(salt + ":" + k)
+	if strings.HasPrefix(k, "p") {
+		h = encryption.Hash(salt+":prefix")[:60] + encryption.Hash(k)[:4]
+	}
+	return util.Path(h)
+}
+
+func short(h string) string {
+	if len(h) > 12 {
+		return h[:12]
+	}
+	return h
+}
+
+func setStr(hs []string) string {
+	if len(hs) == 0 {
+		return "-"
+	}
+	sort.Strings(hs)
+	return strings.Join(hs, ",")
+}
+
+// trieSim: block state over a base DB, transaction tries merged into it — the calls updateState makes.
+type trieSim struct {
+	salt  string
+	base  util.NodeDB
+	prev  *block.Block
+	blk   *block.Block
+	state util.MerklePatriciaTrieI
+	txn   util.MerklePatriciaTrieI
+	sc    *statecache.StateCache
+}
+
+func (s *trieSim) genesis(round0 int64) {
+	gb := block.NewBlock("", round0)
+	gb.Hash = encryption.Hash(s.salt + ":genesis")
+	gb.ClientState = util.NewMerklePatriciaTrie(s.base, util.Sequence(round0), nil, statecache.NewEmpty())
+	gb.ClientStateHash = gb.ClientState.GetRoot()
+	gb.SetStateStatus(block.StateSuccessful)
+	s.prev, s.blk, s.state, s.txn = gb, nil, nil, nil
+}
+
+func (s *trieSim) open(r int64) {
+	b := block.NewBlock("", r)
+	b.Hash = encryption.Hash(fmt.Sprintf("%s:block:%d", s.salt, r))
+	b.PrevBlock, b.PrevHash = s.prev, s.prev.Hash
+	s.state = block.CreateStateWithPreviousBlock(s.prev, s.base, r)
+	b.ClientState = s.state
+	s.blk = b
+}
+
+func (s *trieSim) beginTxn() {
+	bc := statecache.NewBlockCache(s.sc, statecache.Block{Round: s.blk.Round, Hash: s.blk.Hash, PrevHash: s.blk.PrevHash})
+	s.txn = chain.CreateTxnMPT(s.state, statecache.NewTransactionCache(bc))
+}
+
+// sets of a block about to be finalized: new nodes (what SaveChanges will write), dead nodes (GetDeletes), all nodes
+func (s *trieSim) sets() (n, d, t []string, err error) {
+	_, changes, _, _ := s.state.GetChanges()
+	for _, c := range changes {
+		n = append(n, short(c.New.GetHash()))
+	}
+	seen := map[string]bool{}
+	for _, x := range s.state.GetDeletes() {
+		if !seen[x.GetHash()] {
+			seen[x.GetHash()] = true
+			d = append(d, short(x.GetHash()))
+		}
+	}
+	err = s.state.Iterate(context.Background(), func(ctx context.Context, path util.Path, key util.Key, nd util.Node) error {
+		t = append(t, short(nd.GetHash()))
+		return nil
+	}, util.NodeTypeLeafNode|util.NodeTypeFullNode|util.NodeTypeExtensionNode)
+	return
+}
+
+func (s *trieSim) seal() {
+	s.blk.ClientStateHash = s.state.GetRoot()
+	s.blk.SetStateChangesCount(s.state)
+	s.blk.SetStateStatus(block.StateSuccessful)
+}
+
+// ---------------------------------------------------------------------------------------------- implementation side
+
+type bsh struct{}
+
+func (bsh) SaveMagicBlock() chain.MagicBlockSaveFunc                                     { return nil }
+func (bsh) UpdatePendingBlock(ctx context.Context, b *block.Block, txns []datastore.Entity) {}
+func (bsh) UpdateFinalizedBlock(ctx context.Context, b *block.Block) error              { return nil }
+
+var (
+	envOnce sync.Once
+	pdb     *util.PNodeDB
+	pdbDir  string
+	miner   *node.Node
+	nodeDB  = "util.PNodeDB on a temporary rocksdb directory (patched grocksdb shim)"
+)
+
+func env() *chain.Chain {
+	c := engine.Setup()
+	envOnce.Do(func() {
+		block.SetupBlockSummaryEntity(memorystore.GetStorageProvider())
+		round.SetupEntity(memorystore.GetStorageProvider())
+		dir, err := os.MkdirTemp("", "c27-")
+		if err != nil {
+			panic(err)
+		}
+		pdbDir = dir
+		db, err := util.NewPNodeDB(dir+"/state", dir+"/log")
+		if err != nil {
+			panic("cannot open the rocksdb node DB: " + err.Error())
+		}
+		pdb = db
+		ss := encryption.NewBLS0ChainScheme()
+		if err := ss.GenerateKeys(); err != nil {
+			panic(err)
+		}
+		miner = node.Provider()
+		if err := miner.SetPublicKey(ss.GetPublicKey()); err != nil {
+			panic(err)
+		}
+		miner.Type = node.NodeTypeMiner
+		miner.ProtocolStats = &chain.MinerStats{FinalizationCountByRank: make([]int64, 8), GenerationCountByRank: make([]int64, 8)}
+	})
+	return c
+}
+
+func cleanup() {
+	if pdb != nil {
+		pdb.Close()
+		pdb = nil
+	}
+	if pdbDir != "" {
+		os.RemoveAll(pdbDir)
+	}
+}
+
+// recDB is the chain's state DB: the PNodeDB, with the version argument of PruneBelowVersion observed (the version
+// pruneClientState chooses is a local variable otherwise).
+type recDB struct {
+	*util.PNodeDB
+	lastPrune int64
+}
+
+func (r *recDB) PruneBelowVersion(ctx context.Context, version int64) error {
+	r.lastPrune = version
+	return r.PNodeDB.PruneBelowVersion(ctx, version)
+}
+
+type implCase struct {
+	rdb    *recDB
+	c      *chain.Chain
+	sim    *trieSim
+	roots  map[int64]util.Key
+	failed string
+}
+
+func (ic *implCase) do(w []string) (out string) {
+	defer func() {
+		if r := recover(); r != nil {
+			out = "panic"
+		}
+	}()
+	s := ic.sim
+	switch w[0] {
+	case "hist":
+		if len(w) != 3 {
+			return "bad-op"
+		}
+		r0, err := strconv.ParseInt(w[2], 10, 64)
+		if err != nil || r0 < 0 {
+			return "bad-op"
+		}
+		c := ic.c
+		chain.VerifResetChain(c)
+		ic.rdb = &recDB{PNodeDB: pdb, lastPrune: -1}
+		chain.VerifSetStateDB(c, ic.rdb)
+		// drop whatever dead-node records an earlier case left (other salt, other hashes: its nodes are inert)
+		if err := pdb.PruneBelowVersion(context.Background(), 1<<62); err != nil {
+			return "err"
+		}
+		mb := block.NewMagicBlock()
+		mb.Hash = encryption.Hash(w[1] + ":mb")
+		mb.Miners = node.NewPool(node.NodeTypeMiner)
+		mb.Sharders = node.NewPool(node.NodeTypeSharder)
+		if err := mb.Miners.AddNode(miner); err != nil {
+			return "err"
+		}
+		c.SetMagicBlock(mb)
+		ic.sim = &trieSim{salt: w[1], base: ic.rdb, sc: c.GetStateCache()}
+		ic.sim.genesis(r0)
+		c.SetLatestFinalizedBlock(ic.sim.prev)
+		ic.roots = map[int64]util.Key{}
+		return "ok"
+	case "b":
+		if len(w) != 2 || s == nil || s.blk != nil {
+			return "bad-op"
+		}
+		r, err := strconv.ParseInt(w[1], 10, 64)
+		if err != nil || r <= s.prev.Round {
+			return "bad-op"
+		}
+		s.open(r)
+		s.blk.MinerID = miner.GetKey()
+		return "ok"
+	case "t":
+		if len(w) != 1 || s == nil || s.blk == nil || s.txn != nil {
+			return "bad-op"
+		}
+		s.beginTxn()
+		return "ok"
+	case "i":
+		if len(w) != 3 || s == nil || s.txn == nil {
+			return "bad-op"
+		}
+		if _, err := s.txn.Insert(keyPath(s.salt, w[1]), &val{[]byte(w[2])}); err != nil {
+			return "err"
+		}
+		return "ok"
+	case "d":
+		if len(w) != 2 || s == nil || s.txn == nil {
+			return "bad-op"
+		}
+		if _, err := s.txn.Delete(keyPath(s.salt, w[1])); err != nil {
+			return "err"
+		}
+		return "ok"
+	case "c":
+		if len(w) != 1 || s == nil || s.txn == nil {
+			return "bad-op"
+		}
+		err := s.state.MergeMPTChanges(s.txn)
+		s.txn = nil
+		if err != nil {
+			return "err"
+		}
+		return "ok"
+	case "a":
+		if len(w) != 1 || s == nil || s.txn == nil {
+			return "bad-op"
+		}
+		s.txn = nil
+		return "ok"
+	case "fin":
+		if len(w) != 4 || s == nil || s.blk == nil || s.txn != nil {
+			return "bad-op"
+		}
+		for i, tag := range []string{"N:", "D:", "T:"} {
+			if !strings.HasPrefix(w[1+i], tag) {
+				return "bad-op"
+			}
+		}
+		n, d, t, err := s.sets()
+		if err != nil {
+			return "err"
+		}
+		s.seal()
+		rd := round.NewRound(s.blk.Round)
+		rd.SetRandomSeed(s.blk.Round*7+1, 1)
+		ic.c.AddRound(rd)
+		s.blk.RoundRank = 0
+		if err := chain.VerifFinalizeBlock(ic.c, context.Background(), s.blk, bsh{}); err != nil {
+			return "finalize-err"
+		}
+		ic.roots[s.blk.Round] = s.blk.ClientStateHash
+		s.prev, s.blk, s.state = s.blk, nil, nil
+		return fmt.Sprintf("fin N:%s D:%s T:%s", setStr(n), setStr(d), setStr(t))
+	case "prune":
+		if len(w) != 2 || s == nil || s.blk != nil {
+			return "bad-op"
+		}
+		cnt, err := strconv.Atoi(w[1])
+		if err != nil || cnt < 0 || cnt > 100000 {
+			return "bad-op"
+		}
+		ic.c.ChainConfig.(*chain.ConfigImpl).ConfDataForTest().PruneStateBelowCount = cnt
+		stage, deleted, ran := chain.VerifPruneClientState(ic.c, context.Background())
+		switch {
+		case !ran:
+			return "noprune"
+		case stage == util.PruneStateAbandoned:
+			return "abandoned"
+		case stage == util.PruneStateCommplete:
+			return fmt.Sprintf("pruned %d %d", ic.rdb.lastPrune, deleted)
+		}
+		return "prune-stage:" + stage
+	case "check":
+		if len(w) != 2 || s == nil {
+			return "bad-op"
+		}
+		r, err := strconv.ParseInt(w[1], 10, 64)
+		if err != nil || r < 0 {
+			return "bad-op"
+		}
+		root, ok := ic.roots[r]
+		if !ok {
+			return "unknown-round"
+		}
+		mpt := util.NewMerklePatriciaTrie(pdb, util.Sequence(r), root, statecache.NewEmpty())
+		err = mpt.Iterate(context.Background(), func(ctx context.Context, path util.Path, key util.Key, nd util.Node) error { return nil },
+			util.NodeTypeLeafNode|util.NodeTypeFullNode|util.NodeTypeExtensionNode)
+		if err != nil {
+			return "missing"
+		}
+		return "ok"
+	}
+	return "bad-op"
+}
+
+// ---- the change collector: node ids are leaf nodes whose value is the id
+
+type ccCase struct {
+	cc    util.ChangeCollectorI
+	nodes map[string]util.Node
+	ids   map[string]string // hash -> id
+}
+
+func (cc *ccCase) node(id string) util.Node {
+	if n, ok := cc.nodes[id]; ok {
+		return n
+	}
+	n := util.NewLeafNode(util.Path("aa"), util.Path("bb"), util.Sequence(1), &val{[]byte(id)})
+	cc.nodes[id] = n
+	cc.ids[n.GetHash()] = id
+	return n
+}
+
+func (cc *ccCase) do(w []string) string {
+	switch w[0] {
+	case "ccnew":
+		*cc = ccCase{cc: util.NewChangeCollector(nil), nodes: map[string]util.Node{}, ids: map[string]string{}}
+		return "ok"
+	case "ccadd":
+		if len(w) != 3 || cc.cc == nil || w[1] == w[2] {
+			return "bad-op"
+		}
+		var old util.Node
+		if w[1] != "-" {
+			old = cc.node(w[1])
+		}
+		cc.cc.AddChange(old, cc.node(w[2]))
+		return "ok"
+	case "ccdel":
+		if len(w) != 2 || cc.cc == nil {
+			return "bad-op"
+		}
+		cc.cc.DeleteChange(cc.node(w[1]))
+		return "ok"
+	case "ccdump":
+		if cc.cc == nil {
+			return "bad-op"
+		}
+		var chs, dels []string
+		for _, c := range cc.cc.GetChanges() {
+			o := "-"
+			if c.Old != nil {
+				o = cc.ids[c.Old.GetHash()]
+			}
+			chs = append(chs, cc.ids[c.New.GetHash()]+"<"+o)
+		}
+		for _, d := range cc.cc.GetDeletes() {
+			dels = append(dels, cc.ids[d.GetHash()])
+		}
+		return fmt.Sprintf("cc C:%s D:%s", setStr(chs), setStr(dels))
+	}
+	return "bad-op"
+}
+
+func impl(ops []string) []string {
+	outs := make([]string, len(ops))
+	ic := &implCase{c: env()}
+	cc := &ccCase{}
+	for i, op := range ops {
+		w := strings.Fields(op)
+		if len(w) == 0 {
+			outs[i] = "bad-op"
+			continue
+		}
+		if strings.HasPrefix(w[0], "cc") {
+			outs[i] = cc.do(w)
+		} else {
+			outs[i] = ic.do(w)
+		}
+	}
+	return outs
+}
+
+// ---------------------------------------------------------------------------------------------- generator (its own trie over a memory DB)
+
+func genCC(r *rand.Rand) []string {
+	ops := []string{"ccnew"}
+	n := 4 + r.Intn(20)
+	ids := []string{"a", "b", "c", "d", "e", "f"}
+	for i := 0; i < n; i++ {
+		x, y := ids[r.Intn(len(ids))], ids[r.Intn(len(ids))]
+		switch r.Intn(5) {
+		case 0:
+			ops = append(ops, "ccdel "+x)
+		case 1:
+			ops = append(ops, "ccadd - "+x)
+		default:
+			if x != y {
+				ops = append(ops, "ccadd "+x+" "+y)
+			}
+		}
+		if r.Intn(4) == 0 {
+			ops = append(ops, "ccdump")
+		}
+	}
+	return append(ops, "ccdump")
+}
+
+func gen(r *rand.Rand, thorough bool, i int) []string {
+	if i%6 == 5 {
+		return genCC(r)
+	}
+	engine.Setup()
+	salt := fmt.Sprintf("s%d", r.Int63())
+	// rounds around a multiple of 100, where pruneClientState rounds its version down to
+	round0 := int64(100*(1+r.Intn(50))) - int64(r.Intn(30))
+	if r.Intn(5) == 0 {
+		round0 = int64(r.Intn(3))
+	}
+	ops := []string{fmt.Sprintf("hist %s %d", salt, round0)}
+	sim := &trieSim{salt: salt, base: util.NewMemoryNodeDB(), sc: statecache.NewStateCache()}
+	sim.genesis(round0)
+	nblocks := 4 + r.Intn(26)
+	if thorough {
+		nblocks = 4 + r.Intn(120)
+	}
+	keys := []string{"k1", "k2", "k3", "k4", "k5", "pa", "pb", "pc", "pd"}
+	vals := []string{"v1", "v2", "v3"}
+	live := map[string]string{}
+	var finalized []int64
+	rd := round0
+	for bi := 0; bi < nblocks; bi++ {
+		rd++
+		if r.Intn(8) == 0 {
+			rd += int64(1 + r.Intn(3)) // rounds without a finalized block of their own
+		}
+		ops = append(ops, fmt.Sprintf("b %d", rd))
+		sim.open(rd)
+		ntx := r.Intn(4)
+		for ti := 0; ti < ntx; ti++ {
+			ops = append(ops, "t")
+			sim.beginTxn()
+			tlive := map[string]string{}
+			for k, v := range live {
+				tlive[k] = v
+			}
+			for oi := 1 + r.Intn(4); oi > 0; oi-- {
+				k := keys[r.Intn(len(keys))]
+				switch x := r.Intn(10); {
+				case x < 3: // delete (sometimes of an absent key: an error, nothing changes)
+					ops = append(ops, "d "+k)
+					if _, err := sim.txn.Delete(keyPath(salt, k)); err == nil {
+						delete(tlive, k)
+					}
+				case x < 5 && tlive[k] != "": // re-insert the identical value
+					ops = append(ops, "i "+k+" "+tlive[k])
+					sim.txn.Insert(keyPath(salt, k), &val{[]byte(tlive[k])})
+				case x < 6 && live[k] != "": // back to the value the block started with
+					ops = append(ops, "i "+k+" "+live[k])
+					sim.txn.Insert(keyPath(salt, k), &val{[]byte(live[k])})
+					tlive[k] = live[k]
+				default:
+					v := vals[r.Intn(len(vals))]
+					ops = append(ops, "i "+k+" "+v)
+					sim.txn.Insert(keyPath(salt, k), &val{[]byte(v)})
+					tlive[k] = v
+				}
+			}
+			if r.Intn(6) == 0 {
+				ops = append(ops, "a")
+				sim.txn = nil
+			} else {
+				ops = append(ops, "c")
+				if err := sim.state.MergeMPTChanges(sim.txn); err != nil {
+					return append(ops, "generr merge "+strings.ReplaceAll(err.Error(), " ", "_"))
+				}
+				sim.txn = nil
+				live = tlive
+			}
+		}
+		n, d, t, err := sim.sets()
+		if err != nil {
+			return append(ops, "generr iterate "+strings.ReplaceAll(err.Error(), " ", "_"))
+		}
+		ops = append(ops, fmt.Sprintf("fin N:%s D:%s T:%s", setStr(n), setStr(d), setStr(t)))
+		sim.seal()
+		if err := sim.state.SaveChanges(context.Background(), sim.base, false); err != nil {
+			return append(ops, "generr save "+strings.ReplaceAll(err.Error(), " ", "_"))
+		}
+		sim.prev, sim.blk, sim.state = sim.blk, nil, nil
+		finalized = append(finalized, rd)
+		if r.Intn(4) == 0 || bi == nblocks-1 {
+			cnt := r.Intn(12)
+			switch r.Intn(6) {
+			case 0:
+				cnt = 0
+			case 1:
+				cnt = 100
+			}
+			ops = append(ops, fmt.Sprintf("prune %d", cnt))
+			// read back every block finalized so far (the pruned ones may be gone, the retained ones must not be)
+			for _, f := range finalized {
+				if len(finalized) < 12 || r.Intn(3) == 0 || f+15 > rd {
+					ops = append(ops, fmt.Sprintf("check %d", f))
+				}
+			}
+		}
+	}
+	return ops
+}
+
+// ---------------------------------------------------------------------------------------------- oracle
+
+func parseSet(s string) map[string]bool {
+	m := map[string]bool{}
+	i := strings.IndexByte(s, ':')
+	if i < 0 || s[i+1:] == "-" {
+		return m
+	}
+	for _, x := range strings.Split(s[i+1:], ",") {
+		m[x] = true
+	}
+	return m
+}
+
+// oracle: after pruning below a version every finalized block at or above it reads back completely; and the
+// per-block facts the safety argument rests on (Props/C27: prune_safe) hold of the sets the real trie produced.
+func oracle(ops, outs []string) *corr.Violation {
+	mk := func(sig, msg string) *corr.Violation {
+		return &corr.Violation{Signature: "C27:" + sig, Message: msg, Ops: ops, Impl: outs}
+	}
+	var (
+		cur, lfb      int64
+		finalized     = map[int64]bool{}
+		version       int64 = -1
+		prevT         map[string]bool
+		everPersisted = map[string]bool{}
+	)
+	for i, op := range ops {
+		w := strings.Fields(op)
+		o := outs[i]
+		if o == "bad-op" {
+			continue
+		}
+		switch w[0] {
+		case "generr":
+			return mk("generator-failed", fmt.Sprintf("op %d: %s", i, op))
+		case "hist":
+			lfb, _ = strconv.ParseInt(w[2], 10, 64)
+			finalized, version, prevT, everPersisted = map[int64]bool{}, -1, map[string]bool{}, map[string]bool{}
+		case "b":
+			cur, _ = strconv.ParseInt(w[1], 10, 64)
+		case "c":
+			if o != "ok" {
+				return mk("merge-fails", fmt.Sprintf("op %d: MergeMPTChanges answered %q", i, o))
+			}
+		case "fin":
+			f := strings.Fields(o)
+			if len(f) != 4 || f[0] != "fin" {
+				return mk("finalize-fails", fmt.Sprintf("op %d: finalizeBlock of round %d answered %q", i, cur, o))
+			}
+			n, d, t := parseSet(f[1]), parseSet(f[2]), parseSet(f[3])
+			for h := range d {
+				if t[h] {
+					return mk("dead-node-still-in-state", fmt.Sprintf("op %d: node %s is recorded dead at round %d but is part of that block's state", i, h, cur))
+				}
+			}
+			for h := range t {
+				if !prevT[h] && !n[h] {
+					return mk("state-node-from-nowhere", fmt.Sprintf("op %d: node %s of the state of round %d is neither new nor in the previous state", i, h, cur))
+				}
+			}
+			for h := range n {
+				if everPersisted[h] && !prevT[h] {
+					// a new node with the hash of a node persisted earlier and since dropped from the state: only
+					// possible if a hash could repeat across rounds
+					return mk("node-hash-reused-across-rounds", fmt.Sprintf("op %d: new node %s of round %d was persisted before", i, h, cur))
+				}
+				everPersisted[h] = true
+			}
+			prevT = t
+			finalized[cur] = true
+			lfb = cur
+		case "prune":
+			f := strings.Fields(o)
+			if f[0] == "pruned" {
+				v, _ := strconv.ParseInt(f[1], 10, 64)
+				cnt, _ := strconv.ParseInt(w[1], 10, 64)
+				if v > lfb-cnt {
+					return mk("version-above-lfb-minus-count", fmt.Sprintf("op %d: pruned below %d with lfb %d and count %d", i, v, lfb, cnt))
+				}
+				if v > version {
+					version = v
+				}
+			}
+		case "check":
+			r, _ := strconv.ParseInt(w[1], 10, 64)
+			if finalized[r] && r >= version && o != "ok" {
+				return mk("retained-state-unreadable", fmt.Sprintf("op %d: state of the retained block of round %d (pruned below %d) answered %q", i, r, version, o))
+			}
+		}
+	}
+	return nil
+}
+
+func main() {
+	defer cleanup()
+	corr.Main(corr.Prop{
+		ID: "C27", Model: "C27", Gen: gen, Impl: impl, Oracle: oracle, Serial: true,
+		Cases: func(th bool) int {
+			if th {
+				return 400
+			}
+			return 45
+		},
+		Fixed: [][]string{
+			// AddChange clears a pending delete of the re-created node; returning to the start node is no change
+			{"ccnew", "ccadd a b", "ccdump", "ccadd b a", "ccdump", "ccdel a", "ccadd - a", "ccdump", "ccadd - c", "ccdel c", "ccdump"},
+		},
+		Extra: func() map[string]interface{} {
+			cleanup()
+			return map[string]interface{}{"node_db": nodeDB}
+		},
+	})
+}
